@@ -79,3 +79,8 @@ add('C15', 'SYS', 'model_checking',
     'After integration branches exist for two pull requests: every sequence (<=2 quick, <=3 thorough) of source / destination / manual-commit operations followed by reset or force_reset, the evaluation executing it and the next one, on the real code with a virtual commit clock; oracle from harness ground truth (which commits are manual): reset refuses and changes nothing when manual work exists; either command deletes exactly the integration branches and declines exactly the integration PRs of that pull request; the next evaluation rebuilds them.',
     'manual work = commits the harness made on top of an integration branch; layouts D3, E3 (two development branches on one commit), S3, queue and no-queue; one known finding (fast-forwarded integration branch) is listed in known_findings.json.',
     'explicit-state search over operation sequences with ground-truth oracle', 'DESIGN.md section 5 C15')
+
+add('C12', 'SYS', 'model_checking',
+    'BFS over {evaluate, CI green, queue evaluation, add hold, delete hold comment, merge the dependency, decline} for each hold (wait; after_pull_request on open / declined / merged / unknown / non-numeric id; two dependencies) on an otherwise mergeable pull request, queue and no-queue: while a hold is in place (or the pull request is finished) no integration branch, queue entry, integration PR or merge of it may appear, and once lifted the next evaluation must proceed; plus one pull request per (source, destination) pair of a 10 x 10 name matrix: pairs Bert-E does not handle get no comment, no branch, no pull request.',
+    'mock git host; holds placed after the pull request entered the queue do not stop the queue merge: listed as known findings (upstream documents it as intended).',
+    'explicit-state BFS with transition monitor', 'DESIGN.md section 5 C12')
